@@ -435,7 +435,10 @@ void do_op(Ctx& c, int idx, const Op& op)
     if (auto* s = need_slot(a[0]))
       exc = guarded([&] { boost::static_pointer_cast<sg4::Exec>(s->act)->set_bound(num(a[1])); });
   } else if (k == "set_prio") { // SLOT P (exec running: update_priority)
-    if (auto* s = need_slot(a[0]))
+    auto* s = need_slot(a[0]);
+    if (s && s->act->get_state() != sg4::Activity::State::STARTED)
+      skip = true; // changing the priority of an activity that is over is a usage error
+    else if (s)
       exc = guarded([&] {
         if (s->kind == "exec")
           boost::static_pointer_cast<sg4::Exec>(s->act)->update_priority(num(a[1]));
